@@ -355,6 +355,52 @@ fn register_quire_px<const N: u32>(ops: &mut Vec<Op>) {
         .oracle(orf::fma(f, 32 - N, 2))
         .weight(0.5),
     );
+    // the trivial forwarders of Quire<PxE2<N>> for Q32E2 against the inherent methods (C17)
+    ops.push(
+        Op::new(
+            format!("PxE2<{}>::Quire<PxE2> forwarders vs inherent Q32E2", N),
+            &["C17"],
+            &[k, k, k],
+            OutKind::Raw,
+            |x, y, z| {
+                let (a, b, c) = (G::<N>::fb(x), G::<N>::fb(y), G::<N>::fb(z));
+                let mut q = <Q32E2 as Quire<G<N>>>::init();
+                let mut q2 = Q32E2::init();
+                if <Q32E2 as Quire<G<N>>>::to_bits(&q) != q2.to_bits() {
+                    return 1;
+                }
+                <Q32E2 as Quire<G<N>>>::add_product(&mut q, a, b);
+                <Q32E2 as Quire<G<N>>>::sub_product(&mut q, c, c);
+                q2 += (a, b);
+                q2 -= (c, c);
+                let img = <Q32E2 as Quire<G<N>>>::to_bits(&q);
+                if img != q2.to_bits() {
+                    return 2;
+                }
+                if <Q32E2 as Quire<G<N>>>::is_zero(&q) != q2.is_zero() || <Q32E2 as Quire<G<N>>>::is_nar(&q) != q2.is_nar() {
+                    return 3;
+                }
+                let r = <Q32E2 as Quire<G<N>>>::from_bits(img);
+                if r.to_bits() != Q32E2::from_bits(img).to_bits() {
+                    return 4;
+                }
+                <Q32E2 as Quire<G<N>>>::neg(&mut q);
+                q2.neg();
+                if q.to_bits() != q2.to_bits() {
+                    return 5;
+                }
+                <Q32E2 as Quire<G<N>>>::clear(&mut q);
+                q2.clear();
+                if q.to_bits() != q2.to_bits() {
+                    return 6;
+                }
+                0
+            },
+        )
+        .slow(|_, _, _| Some(0))
+        .weight(0.02)
+        .note("0 = every trait method agreed with the inherent method; k = first step that differed"),
+    );
 }
 
 /// generic <-> generic width / exponent-size conversions for one (M, N) pair
